@@ -1,6 +1,7 @@
 import Driver.Common
 import TransportVerif.Model.Replay
 import TransportVerif.Spec.Replay
+import TransportVerif.Link.Replay
 /- driver component `replay <C04|C05>`:
    case <id> <plain|wrap> <window> <max>
    check <s> | ca <s>
@@ -20,11 +21,8 @@ def outStr : Replay.Out → String
   | .accepted false => "1 f"
   | .panic => "panic"
 
-def toSpecOut : Replay.Out → ReplaySpec.Out
-  | .refused => .refused
-  | .okNoAccept => .okNoAccept
-  | .accepted b => .accepted b
-  | .panic => .panic
+/-- the same conversion the theorems use (Link/Replay.lean) -/
+def toSpecOut : Replay.Out → ReplaySpec.Out := ReplayLink.specOut
 
 def allOuts : List Replay.Out := [.refused, .okNoAccept, .accepted true, .accepted false, .panic]
 
